@@ -134,11 +134,14 @@ def run_problem(ck, hb, pb, mid, stats, minimise=True):
     line = write_problem(pb, ck.workdir, mid)
     rc, out, err = core.run_harness(hb, [line], ck.workdir, timeout=900)
     r = parse(core.fparse(out[0]))
+    STAGES = {1: "HeadMat", 2: "DipSourceMat", 3: "Head2EEGMat", 4: "Head2MEGMat", 5: "DipSource2MEGMat", 6: "SymMatrix::inverse", 7: "GainEEG", 8: "GainEEGadjoint",
+              9: "GainMEG", 10: "GainMEGadjoint", 11: "GainEEGMEGadjoint", 12: "svd"}
+    z0 = core.fparse(out[0])[0]; stage = STAGES.get((z0[0] - 10) if z0 else -1, "loading the head / sensors")
     topo = pb["model"]["info"].get("topology")
     if r is None:
         stats["threw"] = stats.get("threw", 0) + 1; stats.setdefault("threw_kinds", []).append(topo)
         if topo in ("nested", "split", "inclusions"):
-            return [("gain computation throws on a valid head (%s)" % topo, "one of HeadMat / DipSourceMat / Head2EEGMat / Head2MEGMat / the six gain computations threw on a generated %s head: %s" % (topo, out[0][:80]),
+            return [("%s throws on a valid head (%s)" % (stage, topo), "%s threw on a generated %s head (%d dipoles, %d electrodes, %d squids) although the other computations on it are defined" % (stage, topo, len(pb["dips"]), len(pb["eeg"]), len(pb["mpos"])),
                      dict(kind="problem", problem=pb, replay_cmd="./check C04 --replay <this file>"))]
         return []
     usable = r["cond"] <= COND_MAX
